@@ -232,6 +232,13 @@ def h_pairs(eng, pairs):
             eng.prove(ureg.is_compatible_with(u, v) == same, f"pair-registry-compat-str:{u}->{v}")
             eng.prove(ureg.Unit(u).is_compatible_with(v) == same, f"pair-unit-compat-str:{u}->{v}")
             eng.prove(q.check(v) == same, f"pair-check-str:{u}->{v}")
+            # the other side given as an object that is not of this registry's own classes (a
+            # second registry with the same definitions): the predicates still go by dimension
+            other = regs.default(eng, auto_reduce_dimensions=False)
+            for label, o in (("Unit", other.Unit(v)), ("Quantity", other.Quantity(x, v))):
+                eng.prove(q.is_compatible_with(o) == same, f"pair-compat-foreign-{label}:{u}->{v}")
+                eng.prove(ureg.is_compatible_with(q, o) == same, f"pair-registry-compat-foreign-{label}:{u}->{v}")
+                eng.prove(ureg.Unit(u).is_compatible_with(o) == same, f"pair-unit-compat-foreign-{label}:{u}->{v}")
         if ok and not (inf[u].inexact or inf[v].inexact):
             eng.prove(Eq(r.magnitude, x * inf[u].num / inf[v].num), f"pair-value:{u}->{v}")
 
